@@ -87,6 +87,17 @@ pub fn swap(
         adaptive_fee_info,
     )?;
 
+    #[cfg(orca_so_whirlpools_verif)]
+    let mut verif_rec = crate::verif_hooks::SwapRecorder::begin(
+        whirlpool,
+        amount,
+        sqrt_price_limit,
+        amount_specified_is_input,
+        a_to_b,
+        timestamp,
+        adaptive_fee_info,
+    );
+
     while amount_remaining > 0 && adjusted_sqrt_price_limit != curr_sqrt_price {
         let (next_array_index, next_tick_index) = swap_tick_sequence
             .get_next_initialized_tick_index(
@@ -115,6 +126,24 @@ pub fn swap(
                 amount_specified_is_input,
                 a_to_b,
             )?;
+
+            #[cfg(orca_so_whirlpools_verif)]
+            verif_rec.step_computed(
+                amount_remaining,
+                total_fee_rate,
+                curr_liquidity,
+                curr_sqrt_price,
+                curr_tick_index,
+                next_tick_index,
+                next_tick_sqrt_price,
+                sqrt_price_target,
+                bounded_sqrt_price_target,
+                adaptive_fee_update_skipped,
+                curr_array_index,
+                next_array_index,
+                &swap_computation,
+                &fee_rate_manager,
+            );
 
             if amount_specified_is_input {
                 amount_remaining = amount_remaining
@@ -160,6 +189,9 @@ pub fn swap(
                     .map_or_else(|_| (None, false), |tick| (Some(tick), tick.initialized));
 
                 if next_tick_initialized {
+                    #[cfg(orca_so_whirlpools_verif)]
+                    verif_rec.crossed(next_tick_index, next_tick.unwrap().liquidity_net);
+
                     let (fee_growth_global_a, fee_growth_global_b) = if a_to_b {
                         (curr_fee_growth_global_input, whirlpool.fee_growth_global_b)
                     } else {
@@ -227,6 +259,17 @@ pub fn swap(
                 )?;
             }
 
+            #[cfg(orca_so_whirlpools_verif)]
+            verif_rec.step_done(
+                amount_remaining,
+                amount_calculated,
+                curr_liquidity,
+                curr_tick_index,
+                curr_protocol_fee,
+                curr_fee_growth_global_input,
+                curr_array_index,
+            );
+
             // do while loop
             if amount_remaining == 0 || curr_sqrt_price == sqrt_price_target {
                 break;
@@ -253,6 +296,19 @@ pub fn swap(
         whirlpool.sqrt_price,
         curr_sqrt_price,
     )?;
+
+    #[cfg(orca_so_whirlpools_verif)]
+    verif_rec.finish(
+        amount_a,
+        amount_b,
+        fee_sum.wrapping_sub(curr_protocol_fee),
+        curr_liquidity,
+        curr_tick_index,
+        curr_sqrt_price,
+        curr_fee_growth_global_input,
+        curr_protocol_fee,
+        &fee_rate_manager.get_next_adaptive_fee_info(),
+    );
 
     Ok(Box::new(PostSwapUpdate {
         amount_a,
